@@ -1,4 +1,4 @@
 CONSTANTS
-  Fams = {"closure", "call", "rec", "assign", "destr", "const", "loop", "epi", "catchvar"}
+  Fams = {"closure", "call", "rec", "assign", "destr", "const", "loop", "epi", "catchvar", "shadow"}
 SPECIFICATION Spec
 INVARIANTS Modelled Export
